@@ -237,6 +237,29 @@ def run(res, tier, seed):
                                            'case_key': 'C10|' + l[:300], 'replay_cmd': './check C10 --replay <this file>'})
         res.count('disagreements_' + impl, nbad)
     res.count('representable_tables_round_tripped_silently', n_repr)
+    hl = header_lines(seed)
+    for impl, flag in (('py', '0'), ('js', '1')):
+        sub = [l for l in hl if l.split(' ')[2] == flag]
+        bad = common.differential(res, sub, impls=(impl,))
+        for b in bad[:3]:
+            res.violations.append({'property': 'C10', 'impl': impl, 'why': 'header + records written by CSVWriter differ from the writer model (the header line is quoted like a record)',
+                                   'line': b['line'], 'model_says': b['model'][:800], 'impl_says': b['got'][:800], 'case_key': 'C10|hdr|' + b['line'][:300]})
+        res.count('header_write_cases_' + impl, len(sub))
+
+
+def header_lines(seed):
+    """the header goes through the same quoting as the records (set_header): names containing the delimiter, quotes, spaces"""
+    rnd = random.Random(seed * 7919 + 101)
+    names = ['id', 'last, first', 'said "what"', 'a b', 'x;y', 'tab\there', 'é', '', 'n#', '##']
+    lines = []
+    for pol, d in (('quoted', ','), ('quoted_rfc', ','), ('quoted', ';'), ('simple', '\t'), ('quoted', '##'), ('quoted_rfc', '\t')):
+        for _ in range(12):
+            k = rnd.randint(1, 3)
+            hdr = rnd.sample(names, k)
+            table = [[rnd.choice(['1', 'v, w', 'q"q', '']) for _c in range(k)] for _r in range(rnd.randint(0, 2))]
+            for js in (0, 1):
+                lines.append('write %s %d %s %s S%s %s' % (pol, js, enc_str(d), enc_str('\n'), common.enc_list(hdr), enc_cell_table(table)))
+    return lines
 
 
 def replay(res, path):
